@@ -42,3 +42,16 @@ Theorem C20_shown_only_if_signed : forall ops s c v,
   obs (final s ops) = Some (c, v) -> obs s = Some (c, v) \/ (In (SignOk c) ops /\ v = true).
 Proof. exact shown_only_if_signed. Qed.
 Print Assumptions C20_shown_only_if_signed.
+
+(* the executable acceptance test applied to the IMPLEMENTATION's traces (Run/C20.v ref_accepts) accepts
+   exactly the runs of the reference machine *)
+From NCG Require Import Run.C20 Proofs.Reflect.
+Theorem C20_checker_sound : forall ops outs poss,
+  ref_accepts poss ops outs = 0%Z -> poss <> [] -> exists a c, In a poss /\ ref_run a ops outs c.
+Proof. exact ref_accepts_sound. Qed.
+Print Assumptions C20_checker_sound.
+
+Theorem C20_checker_complete : forall ops outs a c poss,
+  In a poss -> ref_run a ops outs c -> ref_accepts poss ops outs = 0%Z.
+Proof. exact ref_accepts_complete. Qed.
+Print Assumptions C20_checker_complete.
